@@ -107,6 +107,7 @@ package fsnotify
 //@     invariant len(wds) >= 1
 
 //@ func (w *inotify) remove(name string) (err error)
+//@   local wds []uint32
 //@   mode modeA: !enableRecurse
 //@   requires held(shared.mu) && !held(inotify.cookiesMu) && Wf(w) && TablesInv(w.watches)
 //@   requires forall(k, uint32, has(w.watches.wd, k) ==> has(K, k) || has(Pending, k))
@@ -159,6 +160,7 @@ package fsnotify
 //@             w.watches.path == set(P0, path, k) && w.watches.wd == set(del(W0, P0[path]), k, W0[P0[path]]) && !has(K, P0[path])   [C04 C09 C12] "a listed path that now names a new file: its watch moves there and the old kernel watch is released"
 
 //@ func (w *inotify) AddWith(path string, opts ...addOpt) (err error)
+//@   local with withOpts
 //@   mode modeA: !enableRecurse
 //@   requires Wf(w) && nolocks()
 //@   let p = filepath.Clean(path)
@@ -193,6 +195,7 @@ package fsnotify
 //@   ensures didLock(shared.mu) && has(P1, p) ==> err == nil || closed(w.done)                      [C04 C10]
 
 //@ func (w *inotify) WatchList() (l []string)
+//@   local entries []string
 //@   requires Wf(w) && nolocks()
 //@   let P1 = atLock(w.watches.path)
 //@   ensures nolocks()                                                                              [C05 C07]
@@ -249,6 +252,8 @@ package fsnotify
 //@   ensures subset(old(Pending), Pending)                                                            [C12]
 
 //@ func (w *inotify) readEvents()
+//@   local ev Event
+//@   local inEvent *unix.InotifyEvent
 //@   thread
 //@   consumes reader
 //@   mode modeA: !enableRecurse
